@@ -696,6 +696,13 @@ theorem gen_entry :
     Gen.Datagram.routeUDPBufLen ≥ 65507 ∧
     Gen.Datagram.routeUDPWritesWhatWasRead = true ∧ Gen.Datagram.routeUDPRefusalDropsStream = true := by decide
 
+/-- the way back (`RouteUDP`'s per-stream goroutine): its read buffer holds the largest datagram one frame can carry with the
+client's on-wire limit, so by `c14_short_buffer_keeps`/`c14_exactly_once` no datagram the peer's `Write` accepted is refused
+by that read (8192 bytes before /repo's fix: datagrams of 8193..16132 bytes ended the stream undelivered) -/
+theorem gen_return :
+    Gen.Datagram.routeUDPReturnBufLen ≥ DG.maxUnit Gen.Datagram.appDataMaxLengthClient ∧
+    Gen.Datagram.routeUDPReturnWritesWhatWasRead = true := by decide
+
 /-- **C14 (UDP entry of the client).** `client.RouteUDP` on a session with Cloak's on-wire limit: every datagram of
 1..16132 bytes read from the local socket is sent whole as one frame, every longer one is refused by `Stream.Write`
 and nothing is sent. -/
